@@ -84,7 +84,7 @@ theorem newFrame_si_ctx (k : Kont) (parent : Waiter) (s : State) (h : SI s) (hk 
     (hc : ∀ p, k.loopPid = some p → pendCount s p = 0) : SI (newFrame k parent s).2 := by
   unfold newFrame
   simp only [bind, pure]
-  have q := quiet_freshId s
+  have q := squiet_freshId s
   have h1 := freshId_si s h
   exact pushFrame_si _ _ h1 (hk.mono q.ext) (fun p hp => by rw [q.pendCount]; exact hc p hp)
 
@@ -272,9 +272,9 @@ theorem callHook_false_called (u : Nat) (hn : String) (s : State) (h : (callHook
     by_cases hraise : spec.outs.getD (((getW u s).1.hookCalls.lookup hn).getD 0 %
         if spec.outs.length = 0 then 1 else spec.outs.length) "true" = "raise"
     · erw [if_pos hraise]
-      exact (quiet_notify u "hook_failure" none hn s1).ext.hook u hn hb
+      exact (squiet_notify u "hook_failure" none hn s1).ext.hook u hn hb
     · erw [if_neg hraise]
-      exact (quiet_notify u "hook_success" none hn s1).ext.hook u hn hb
+      exact (squiet_notify u "hook_success" none hn s1).ext.hook u hn hb
 
 theorem kKill_logged (p sg : Nat) (via : String) (s : State) :
     (∃ st, Obs.sig p sg st via ∈ (kKill p sg via s).2.log) ∨ (kKill p sg via s).2.blocked = true := by
@@ -295,7 +295,7 @@ theorem sendSignal_began (u p sg : Nat) (s : State) (ho : HasObj s p) : Began (s
   by_cases hc : (getW u s).1.pids.contains p = true
   · erw [if_pos hc]
     rw [e1]
-    have hq0 := quiet_callHook u "before_signal" s
+    have hq0 := squiet_callHook u "before_signal" s
     have hfc := callHook_false_called u "before_signal" s
     generalize callHook u "before_signal" s = r at hq0 hfc
     obtain ⟨rv, s1⟩ := r
@@ -311,11 +311,11 @@ theorem sendSignal_began (u p sg : Nat) (s : State) (ho : HasObj s p) : Began (s
         exact hv.1
       have hcalled : HookCalled s1 u "before_signal" := hfc hrv
       erw [if_pos rfl]
-      have hq2 := quiet_callHook u "after_signal" s1
+      have hq2 := squiet_callHook u "after_signal" s1
       exact Or.inr (Or.inr (Or.inl ⟨hsg, hq2.ext.hook _ _ hcalled⟩))
     · erw [if_neg hv]
       have hk := kKill_logged p sg "" s1
-      have hqk := quiet_kKill p sg "" s1
+      have hqk := squiet_kKill p sg "" s1
       generalize kKill p sg "" s1 = rk at hk hqk
       obtain ⟨ok, s2⟩ := rk
       have hB2 : Began s2 u p sg := by
@@ -324,7 +324,7 @@ theorem sendSignal_began (u p sg : Nat) (s : State) (ho : HasObj s p) : Began (s
         · exact Or.inr (Or.inl hb)
       by_cases hok : ok = true
       · erw [if_pos hok]
-        exact hB2.mono (quiet_callHook u "after_signal" s2).ext.toExt0 (hqk.ext.obj p ho1)
+        exact hB2.mono (squiet_callHook u "after_signal" s2).ext.toExt0 (hqk.ext.obj p ho1)
       · erw [if_neg hok]
         exact hB2
   · erw [if_neg hc]
@@ -354,8 +354,8 @@ theorem sspTail_s {I : State → Prop} (L : LeafS I) (u p sg : Nat) (ok : Bool) 
     Pres I (sspTail u p sg ok children) := by
   unfold sspTail; sg
 
-theorem quiet_sspTail (u p sg : Nat) (ok : Bool) (children : List Nat) : QuietM (sspTail u p sg ok children) :=
-  QuietM.of_pres fun s0 => sspTail_s (quietLeafS s0) u p sg ok children
+theorem squiet_sspTail (u p sg : Nat) (ok : Bool) (children : List Nat) : SQuietM (sspTail u p sg ok children) :=
+  SQuietM.of_pres fun s0 => sspTail_s (squietLeafS s0) u p sg ok children
 
 /-- **`send_signal_process(p, sig)`** (the first phase with `stop_children`): the signal is in the
     log — or one of the exemptions of `Began` holds; in particular `NoSuchProcess` from `children()`
@@ -364,7 +364,7 @@ theorem sendSignalProcess_began (u p sg : Nat) (r : Bool) (s : State) (hpid : Pi
     Began (sendSignalProcess u p sg r s).2 u p sg := by
   rw [sendSignalProcess_eq]
   simp only [bind]
-  have hq0 := quiet_kChildren p r s
+  have hq0 := squiet_kChildren p r s
   cases hcs : (kChildren p r s).1 with
   | none =>
     simp only [pure]
@@ -374,8 +374,8 @@ theorem sendSignalProcess_began (u p sg : Nat) (r : Bool) (s : State) (hpid : Pi
     simp only
     have ho1 := hq0.ext.obj p ho
     have hB := sendSignal_began u p sg (kChildren p r s).2 ho1
-    have hq1 := quiet_sendSignal u p sg (kChildren p r s).2
-    exact hB.mono (quiet_sspTail u p sg _ children _).ext.toExt0 (hq1.ext.obj p ho1)
+    have hq1 := squiet_sendSignal u p sg (kChildren p r s).2
+    exact hB.mono (squiet_sspTail u p sg _ children _).ext.toExt0 (hq1.ext.obj p ho1)
 
 /-! ### `Watcher.kill_process` -/
 
@@ -393,7 +393,7 @@ theorem killFinish_si {rec : Rec} (hrec : RecSI rec) (u p : Nat) (esc : Bool) (w
   cases esc with
   | true =>
     erw [if_pos rfl]
-    exact fin _ (sendSignalProcess_s siLeafS u p 9 true s h) ((quiet_sendSignalProcess u p 9 true s).pendCount p |>.trans hc)
+    exact fin _ (sendSignalProcess_s siLeafS u p 9 true s h) ((squiet_sendSignalProcess u p 9 true s).pendCount p |>.trans hc)
   | false =>
     erw [if_neg (by simp)]
     exact fin _ h hc
@@ -407,7 +407,7 @@ theorem killLoop_si {rec : Rec} (hrec : RecSI rec) (u p sig i polls : Nat) (wt :
   by_cases hlt : i < polls
   · erw [if_pos hlt]
     simp only [bind]
-    have hq := quiet_isAlive p s
+    have hq := squiet_isAlive p s
     have h1 := isAlive_s siLeafS p s h
     have hc1 : pendCount (isAlive p s).2 p = 0 := by rw [hq.pendCount]; exact hc
     by_cases ha : (isAlive p s).1 = true
@@ -449,18 +449,18 @@ theorem killProcess_si {rec : Rec} (hrec : RecSI rec) (u p : Nat) (sig gt : Opti
     by_cases hch : (getW u s).1.stopChildren = true
     · erw [if_pos hch]
       erw [if_neg (by simp)]
-      have hq := quiet_sendSignalProcess u p sg false s
+      have hq := squiet_sendSignalProcess u p sg false s
       have h2 := sendSignalProcess_s siLeafS u p sg false s h
       have hB := sendSignalProcess_began u p sg false s h.pid ho
       exact tail _ h2 (hq.ext.obj p ho) hB ((hq.pendCount p).trans hc0)
     · erw [if_neg hch]
-      have hq := quiet_sendSignal u p sg s
+      have hq := squiet_sendSignal u p sg s
       have h2 := sendSignal_s siLeafS u p sg s h
       have hB := sendSignal_began u p sg s ho
       have ho2 := hq.ext.obj p ho
       have hc2 : pendCount (sendSignal u p sg s).2 p = 0 := (hq.pendCount p).trans hc0
       by_cases hr : (sendSignal u p sg s).1 = true
-      · have hqn := quiet_notify u "kill" (some p) "-" (sendSignal u p sg s).2
+      · have hqn := squiet_notify u "kill" (some p) "-" (sendSignal u p sg s).2
         have h3 := notify_s siLeafS u "kill" (some p) "-" _ h2
         have key := tail _ h3 (hqn.ext.obj p ho2) (hB.mono hqn.ext.toExt0 ho2) ((hqn.pendCount p).trans hc2)
         erw [if_pos hr]
